@@ -339,7 +339,10 @@ def bsf_to_pauli(bsf):
             pauli_string = ['I' for _ in range(n)]
             for i in b.indices:
                 if i < n:
-                    pauli_string[i] = 'X'
+                    if pauli_string[i] == 'Z':
+                        pauli_string[i] = 'Y'
+                    else:
+                        pauli_string[i] = 'X'
                 elif i >= n:
                     if pauli_string[i - n] == 'X':
                         pauli_string[i - n] = 'Y'
